@@ -235,6 +235,8 @@ def run(tier, seed, replay=None):
                 with open(os.path.join(dt, nm), "w") as f:
                     f.write(text)
                 twins[os.path.relpath(os.path.join(dt, nm), root)] = lang_name
+            with open(os.path.join(dt, "solo.c"), "w") as f:
+                f.write("int solo_only_here(int q) {\n    int r = q + 41;\n    return r;\n}\n")
             # order-sensitive exclusions in the configuration file: everything beneath one directory except one file
             # (gitignore semantics: the last matching pattern decides, so the ORDER of the two patterns matters)
             excl = []
@@ -307,6 +309,28 @@ def run(tier, seed, replay=None):
                                   + str(sorted(set(fresh_proc["codebase"]["files"]) ^ set(reports[0]["codebase"]["files"]))))
             except (OSError, ValueError):
                 chk.violation({"tree": t}, f"`codelimit scan` in a fresh process failed: {sp.stderr[-200:]}")
+            # ... and with the cache of the last scan in place: a file copied to a name of another language (same bytes as a
+            # cached file, a path the cache does not know) is analysed as what its NEW name says — the report must be the one a
+            # cache-less scan gives (seeded change C06-15: cached entries looked up by checksum when the path is unknown)
+            try:
+                F.run_scan(root, excl)
+                shutil.copy(os.path.join(dt, "solo.c"), os.path.join(dt, "solo_copy.cpp"))
+                with open(os.path.join(dt, "blank_copy.js"), "w"):
+                    pass
+                with_cache, _ = F.run_scan(root, excl)
+                shutil.rmtree(os.path.join(root, ".codelimit_cache"), ignore_errors=True)
+                without_cache, _ = F.run_scan(root, excl)
+                chk.evaluations += 1
+                if with_cache != without_cache:
+                    diff = sorted(p for p in set(with_cache["codebase"]["files"]) | set(without_cache["codebase"]["files"])
+                                  if with_cache["codebase"]["files"].get(p) != without_cache["codebase"]["files"].get(p))
+                    chk.violation({"tree": t, "files": diff},
+                                  f"after copying solo.c to solo_copy.cpp and adding an empty blank_copy.js, the scan that starts from the "
+                                  f"previous cache differs from a scan without cache in {diff}: "
+                                  f"{[with_cache['codebase']['files'].get(p, {}).get('language') for p in diff]} vs "
+                                  f"{[without_cache['codebase']['files'].get(p, {}).get('language') for p in diff]}")
+            except Exception as ex:
+                chk.violation({"tree": t}, f"cache-assisted rescan after copying files raised {type(ex).__name__}: {ex}")
             chk.evaluations += 4
             chk.count("tree scanned under 3 traversal orders + fresh process")
             if not (reports[0] == reports[1] == reports[2]):
